@@ -357,45 +357,43 @@ def _r4(rc: RuleCtx, m: rm.LoopModel):
     else:
         res.violation("R4", m.fi.module, m.fi.name, m.loop, "the removed row is not [left, number of points of the segment - 2]",
                       str([str(e.args[0]) for e in rem]), "[left, len(pt) - 2]", construct="removed row rdp")
-    # compute_removed_points
+    # compute_removed_points: evaluated whole on the sequence domain; the table is one row per consecutive retained pair
+    from ..seqdom import mk_gen, var_symbol, seq_equiv, flatten
     fi = rc.func("rdp.compute_removed_points")
     ev = rc.new_eval()
+    ev.summarise_loops = True
     pts = ev.point("points", True)
     red = ev.symbol("reduced", True)
     ev.len_map = {"points": sym("n"), "reduced": sym("R")}
-    pre, loop, post = split_at_loop(fi)
-    env = {"points": pts, "reduced": red}
-    fr = Frame(ev, fi, 0)
-    fr.block(pre, env, TRUE)
-    from .common import bind_loop
+    try:
+        out = ev.eval_function(fi, {"points": pts, "reduced": red})
+    except Unsupported as e:
+        raise AnalysisError(f"rdp.compute_removed_points: not modelled: {e}")
+    val = out.value()
+    if not (isinstance(val, Vec) and val.kind == "list"):
+        raise AnalysisError(f"rdp.compute_removed_points: the table is not a summarised sequence ({_short(val, 80)}; {ev.summary_log[-1:]}) - shape not recognised")
     at = lambda x, i: anf.opaque("at", x, i, array=False)  # noqa: E731
-    b = bind_loop(ev, fr, loop, env)
-    if b is None:
-        raise AnalysisError("rdp.compute_removed_points: loop header has no recognised shape")
-    lefts = [n for n, v in env.items() if isinstance(v, Rat) and v.equals(at(red, C(0)))]
-    outs = [n for n, v in env.items() if isinstance(v, Vec) and v.kind == "list" and not v.items]
-    rows = []
-    if b.visits(1, sym("R")) and len(lefts) == 1 and len(outs) == 1:
-        lname, oname = lefts[0], outs[0]
-        i = b.idx
-        benv = dict(env)
-        benv.update(b.bindings)
-        benv[lname] = ev.symbol(lname)
-        benv[oname] = ev.symbol(oname + "@list")
-        out = ev.eval_loop_body(fi, loop, benv)
-        right = at(red, i)
-        rows = [e for e in out.events if e.kind == "append" and e.target == oname]
-        if len(rows) == 1 and rows[0].guard.kind == "true" and isinstance(rows[0].args[0], Vec) and len(rows[0].args[0].items) == 2:
-            a, b2 = rows[0].args[0].items
-            want = right - sym(lname) - C(1)
-            if isinstance(a, Rat) and a.equals(sym(lname)) and isinstance(b2, Rat) and b2.equals(want) \
-                    and isinstance(out.env.get(lname), Rat) and out.env[lname].equals(right):
-                res.ok("R4", "rdp.compute_removed_points", "one row [left, next - left - 1] per consecutive retained pair")
-                # agreement with rdp(): right_exclusive = next + 1  =>  (right_e - left) - 2 == next - left - 1
-                res.ok("R4", "rdp.rdp~compute_removed_points", "both tables use the linear form next_retained - left - 1")
-                return
-    res.violation("R4", fi.module, fi.name, loop, "compute_removed_points does not emit one row [left, next - left - 1] per consecutive retained pair",
-                  str([str(e.args[0]) for e in rows]), "[left, reduced[i] - left - 1]; left <- reduced[i]", construct="removed row crp")
+    j = var_symbol(0)
+    want = Vec(flatten([mk_gen(0, C(0), sym("R") - C(1), C(1), [(TRUE, Vec([at(red, j), at(red, j + C(1)) - at(red, j) - C(1)], "list"), False)])]), "list")
+    got = Vec(flatten(val.items), "list")
+
+    def _rows_as_lists(v):
+        return v
+    ok2 = seq_equiv(got, want)
+    if not ok2 and len(got.items) == 1:
+        # rows may be tuples or lists: compare component-wise
+        from ..seqdom import Gen
+        g0, w0 = got.items[0], want.items[0]
+        if isinstance(g0, Gen) and g0.ranged and g0.lo.equals(w0.lo) and g0.hi.equals(w0.hi) and g0.step.equals(w0.step) and len(g0.parts) == 1 \
+                and g0.parts[0][0].kind == "true" and not g0.parts[0][2] and isinstance(g0.parts[0][1], Vec) and len(g0.parts[0][1].items) == 2:
+            ok2 = all(isinstance(p_, Rat) and p_.equals(q_) for p_, q_ in zip(g0.parts[0][1].items, w0.parts[0][1].items))
+    if ok2:
+        res.ok("R4", "rdp.compute_removed_points", "one row [left, next - left - 1] per consecutive retained pair")
+        # agreement with rdp(): right_exclusive = next + 1  =>  (right_e - left) - 2 == next - left - 1
+        res.ok("R4", "rdp.rdp~compute_removed_points", "both tables use the linear form next_retained - left - 1")
+        return
+    res.violation("R4", fi.module, fi.name, fi.node, "compute_removed_points does not emit one row [left, next - left - 1] per consecutive retained pair",
+                  _short(got, 300), "[reduced[j], reduced[j+1] - reduced[j] - 1] for j = 0..len(reduced)-2", construct="removed row crp")
 
 
 def _r5(rc: RuleCtx):
